@@ -1,3 +1,4 @@
+import CedarVerif.Cedar.Authorizer
 import CedarVerif.Lemmas.ManifestSound
 /-
 C17 helper lemmas, part 4: the induction over the core fragment.
@@ -534,5 +535,77 @@ theorem eval_sliced (hsub : SubStore es es') (hctx : CtxWF req) :
   | .record _, _, hf, _, _, _ => by simp [InFrag] at hf
 
 end main
+
+end Cedar.Manifest
+
+namespace Cedar.Manifest
+open Cedar
+
+/-- the response depends on the store only through the policies' outcomes -/
+theorem isAuthorized_congr (req : Request) (es es' : Entities) (ps : List Policy)
+    (h : ∀ p, p ∈ ps → p.outcome req es' = p.outcome req es) :
+    isAuthorized req es' ps = isAuthorized req es ps := by
+  have key : ∀ (ps : List Policy) (b : Buckets), (∀ p, p ∈ ps → p.outcome req es' = p.outcome req es) →
+      ps.foldl (Buckets.step req es') b = ps.foldl (Buckets.step req es) b := by
+    intro ps
+    induction ps with
+    | nil => intro b _; rfl
+    | cons p ps ih =>
+      intro b hp
+      have h1 : Buckets.step req es' b p = Buckets.step req es b p := by
+        simp only [Buckets.step, hp p (by simp)]
+      simp only [List.foldl_cons, h1]
+      exact ih _ (fun q hq => hp q (by simp [hq]))
+  simp only [isAuthorized, key ps {} h]
+
+/-- the trie of a policy set (for one request type): the union of the policies' tries, in order -/
+def unionAll (gs : List RootAccessTrie) : RootAccessTrie := gs.foldl unionRoots []
+
+theorem coverRoots_foldl (es es' : Entities) (req : Request) : ∀ (gs : List RootAccessTrie) (acc : RootAccessTrie),
+    CoverRoots es es' req (gs.foldl unionRoots acc) → CoverRoots es es' req acc ∧ ∀ g, g ∈ gs → CoverRoots es es' req g
+  | [], acc, h => ⟨h, by simp⟩
+  | g :: gs, acc, h => by
+    simp only [List.foldl_cons] at h
+    obtain ⟨h1, h2⟩ := coverRoots_foldl es es' req gs _ h
+    obtain ⟨h3, h4⟩ := coverRoots_union es es' req g acc h1
+    refine ⟨h3, ?_⟩
+    intro g' hg'
+    simp only [List.mem_cons] at hg'
+    rcases hg' with e | e
+    · subst e; exact h4
+    · exact h2 g' e
+
+/-- a store covering the trie of the whole set covers the trie of each policy -/
+theorem coverRoots_unionAll (es es' : Entities) (req : Request) (gs : List RootAccessTrie)
+    (h : CoverRoots es es' req (unionAll gs)) : ∀ g, g ∈ gs → CoverRoots es es' req g :=
+  (coverRoots_foldl es es' req gs [] h).2
+
+/-- `Policy::outcome` as a function of the evaluation result -/
+def outcomeOf (r : Result Value) : Outcome :=
+  match r with
+  | .error _ => .err
+  | .ok v => match v.asBool with
+    | .ok true => .sat
+    | .ok false => .unsat
+    | .error _ => .err
+
+theorem outcome_eq_outcomeOf (p : Policy) (req : Request) (es : Entities) :
+    p.outcome req es = outcomeOf (evaluate req es p.env p.condition) := by
+  unfold Policy.outcome outcomeOf
+  cases evaluate req es p.env p.condition with
+  | error x => rfl
+  | ok v => cases v.asBool with
+    | error x => rfl
+    | ok b => cases b <;> rfl
+
+/-- related results have the same policy outcome -/
+theorem outcome_of_rel {es es' : Entities} {req : Request} {P : WPaths} {r r' : Result Value} (h : Rel es es' req P r r') :
+    outcomeOf r' = outcomeOf r := by
+  cases r with
+  | error x => simp only [Rel] at h; subst h; rfl
+  | ok v =>
+    obtain ⟨v', e1, e2, _⟩ := h
+    subst e1
+    simp only [outcomeOf, trim_asBool e2]
 
 end Cedar.Manifest
